@@ -56,9 +56,7 @@ func catalogue(form string) []corruption {
 	case "snps", "snps-agg", "updownlist":
 		fasta("query")
 		out = append(out, corruption{"empty_file", "ref", ""}, corruption{"bad_symbol", "ref", "first"}, corruption{"ref_width", "ref", ""})
-		if form == "updownlist" {
-			out = append(out, corruption{"two_records", "ref", ""})
-		}
+		out = append(out, corruption{"two_records", "ref", ""})
 	case "closest", "closestn":
 		fasta("query")
 		fasta("target")
